@@ -191,8 +191,18 @@ def check(P: Project, R: Report) -> None:
             return "spawn"
         return None
 
-    ra, ro = run_paths(rt.node, event_of=ev, fallible=False)
+    # a full main stream is an ordinary schedule (the consumer is momentarily behind), not a fault: a non-blocking put
+    # on the main stream has a WouldBlock edge, and what the router does on it is part of the routing
+    main_nowait = [c_ for c_ in incoming_send_calls(P, _stdio.client(P)) if c_.endswith("send_nowait")]
+
+    def would_block(node, st, an2):
+        from ..paths import calls_in_order
+        return {"anyio.WouldBlock"} if any(call_name(c_) in main_nowait for c_ in calls_in_order(node)) else set()
+
+    ra, ro = run_paths(rt.node, event_of=ev, fallible_pred=would_block)
     R.paths += len(ro.ret) + len(ro.normal)
+    for st, tag, node in ro.exc:
+        R.ob("R4", "a full main stream does not make the router raise", tag != "anyio.WouldBlock", f"{rt.module.rel}:{getattr(node, 'lineno', 0)}", "WouldBlock from the non-blocking put leaves the router")
     IDN = f"getattr({mp}, 'id', None)"
     exits = [st for st, _n in ro.ret] + list(ro.normal)
     R.need(exits, "router has no normal exit")
